@@ -15,7 +15,7 @@ pub fn label(rng: &mut Rng, maxlen: usize) -> Vec<u8> {
     (0..len)
         .map(|_| match style {
             0 => rng.u8(),
-            1 => *rng.pick(&[0x00, 0x20, b'.', b'\\', b'"', b';', b'(', b')', b'@', b'$', b'*', 0x7f, 0xff, 0x40, 0x41, 0x5a, 0x5b, 0x60, 0x61, 0x7a, 0x7b, b'-', b'_', b'0']),
+            1 => *rng.pick(&[0x00, 0x20, b'.', b'\\', b'"', b';', b'(', b')', b'@', b'$', b'*', b'#', 0x7f, 0xff, 0x40, 0x41, 0x5a, 0x5b, 0x60, 0x61, 0x7a, 0x7b, b'-', b'_', b'0']),
             2 => *rng.pick(b"ABCabc"),
             _ => *rng.pick(b"abcdefghijklmnopqrstuvwxyzABCDEFXYZ0123456789-"),
         })
@@ -150,8 +150,9 @@ pub fn presentation(rng: &mut Rng, name: &[u8], trailing_dot: bool) -> String {
             let special = matches!(c, b'.' | b'\\' | b'"' | b';' | b'(' | b')' | b'@' | b'$' | b' ');
             if !printable || rng.chance(1, 12) {
                 s.push_str(&format!("\\{:03}", c));
-            } else if special || (rng.chance(1, 12) && !c.is_ascii_digit() && c != b'#') {
-                // ('\\#' is the RFC 3597 generic-RDATA marker, never written for a label)
+            } else if special || (rng.chance(1, 12) && !c.is_ascii_digit() && (c != b'#' || ci > 0 || p > 0 || l > 1)) {
+                // ('\\#' standing alone is the RFC 3597 generic-RDATA marker; glued to further
+                // characters of the same token it is an escaped '#')
                 s.push('\\');
                 s.push(c as char);
             } else {
